@@ -2,13 +2,13 @@
 (* Validation of phase replays recorded from REAL replications (harness/rest/c06_replication_test.go, converted by
    checks/C06.py: revision ids -> [generation, digest rank], versions -> ranks, source ids -> "A" / "B").
    Lines:
-     {a:"Reset", beh, proto, dir, revs:[[d, g, x, pg, px, body, del] ...]}        the content-addressed revision table of the behaviour
+     {a:"Reset", beh, proto, dir, res, mvers:[merge versions seen], revs:[[d, g, x, pg, px, body, del] ...]}        the content-addressed revision table of the behaviour
      {a:"Write", p, d, kind, body, ver, pre:VIEW, post:VIEW}          kind "skip": the environment's write did not apply
      {a:"Start"}  {a:"Stop"}
      {a:"Sync", ok, A:[VIEW ...], B:[VIEW ...]}                       caught-up point: views of every document on both peers
      {a:"Rerun", w, r, f, A:[...], B:[...]}                           one-shot re-run of the caught-up replication: docs_written,
                                                                       docs_read, failed transfers; views afterwards
-   VIEW = {ex, cur:[g,x], tree:[[g,x] ...], nlive, src, ver, pv:[a,b], body, del, rest:{code, id:[..], body, del}}
+   VIEW = {ex, cur:[g,x], tree:[[g,x] ...], nlive, src, ver, mv:[a,b], pv:[a,b], body, del, rest:{code, id:[..], body, del}}
 
    Pass P (PSpec): document states := the logged REAL views, ghosts advance from the logged inputs; the invariants are the
    property statement.  Pass C (CSpec): between two logged lines the model takes any number of UNLOGGED replication steps;
@@ -18,8 +18,9 @@ EXTENDS Replication, TraceLib
 
 TProtos == {"v3"}                   \* one initial state; every Reset line carries the configuration of its scenario
 TDirSets == {{"push", "pull"}}
+TResolvers == {"default"}
 LDirs(s) == CASE s = "push" -> {"push"} [] s = "pull" -> {"pull"} [] OTHER -> {"push", "pull"}
-KeepCfg == UNCHANGED <<proto, dirs>>
+KeepCfg == UNCHANGED <<proto, dirs, resolver>>
 D2 == {1, 2}
 EmptyPool == [d \in Docs |-> {}]
 
@@ -32,7 +33,7 @@ tvars == <<vars, l, obs, rr, caught, devc>>
 
 RevOf(t) == [g |-> t[1], x |-> t[2]]
 LView(v) == [tree |-> {RevOf(v.tree[i]) : i \in 1..Len(v.tree)}, cur |-> RevOf(v.cur),
-             src |-> v.src, ver |-> v.ver, pv |-> [A |-> v.pv[1], B |-> v.pv[2]], body |-> v.body, del |-> v.del]
+             src |-> v.src, ver |-> v.ver, mv |-> [A |-> v.mv[1], B |-> v.mv[2]], pv |-> [A |-> v.pv[1], B |-> v.pv[2]], body |-> v.body, del |-> v.del]
 LObs(v) == [nlive |-> v.nlive, rest |-> v.rest]
 LDocs(r) == [p \in Peers |-> [d \in Docs |-> LView(r[p][d])]]
 LObsAll(r) == [p \in Peers |-> [d \in Docs |-> LObs(r[p][d])]]
@@ -50,9 +51,10 @@ Ev(a) == l <= TraceLen /\ Trace[l].a = a /\ l' = l + 1
 TInit == Init /\ l = 1 /\ obs = NoObs /\ rr = NoRR /\ caught = TRUE /\ devc = [d \in Docs |-> ""]
 
 Reset == /\ Ev("Reset")
-         /\ proto' = Trace[l].proto /\ dirs' = LDirs(Trace[l].dir)
+         /\ proto' = Trace[l].proto /\ dirs' = LDirs(Trace[l].dir) /\ resolver' = Trace[l].res
          /\ doc' = [p \in Peers |-> [d \in Docs |-> Absent]]
-         /\ revs' = LRevs(Trace[l].revs) /\ pool' = EmptyPool
+         /\ revs' = LRevs(Trace[l].revs)
+         /\ pool' = [d \in Docs |-> {[g |-> 0, x |-> Trace[l].mvers[i]] : i \in 1..Len(Trace[l].mvers)}]
          /\ seq' = [p \in Peers |-> 0] /\ dseq' = [p \in Peers |-> [d \in Docs |-> 0]]
          /\ running' = FALSE /\ cursor' = [x \in AllDirs |-> 0] /\ ckpt' = [x \in AllDirs |-> 0] /\ msgs' = [x \in AllDirs |-> {}]
          /\ out' = [a |-> "None", d |-> 0, res |-> "None"]
@@ -105,12 +107,14 @@ RestSame(d) == obs["A"][d].rest = obs["B"][d].rest
 Reported(d) == d \in devd /\ PrintT(<<"DEV", l - 1, d, DevClass(d)>>)
 ConvergedP == sync => \A d \in Docs : Promised(d) => ((SameView(d) /\ RestSame(d)) \/ Reported(d))
 SingleWinnerP == sync => \A p \in Peers, d \in Docs : obs[p][d].nlive <= 1
-(* a re-run of the caught-up replication transfers no revision and changes nothing - on the documents on which convergence
-   is promised.  Excused, one transfer each: a document the environment wrote on the target side of a one-directional
-   replication (the target may have changed since the source's revision was rejected; the re-run lists everything again),
-   and a document on which a named deviation was reported (the re-run may repair it).  Failed transfers (409) likewise. *)
-Excused == {d \in Docs : ~Promised(d) \/ d \in devd}
+(* a re-run of the caught-up replication transfers no revision and changes nothing.  Excused, one transfer each: a document
+   on which a named deviation was reported (the re-run, which lists everything again, may repair it) and - PUSH only - a
+   document the environment wrote on the target side (the target may have changed since the source's revision was rejected).
+   A pull never has an excuse of the second kind: what the source lists is known to a caught-up target whoever wrote last.
+   Failed transfers (409) likewise. *)
+Excused == {d \in Docs : RerunExcused(d)}
 IdempotentRerunP == rr.on => /\ rr.w + rr.r <= Cardinality(Excused)
+                             /\ rr.r <= Cardinality(devd)
                              /\ rr.chg \subseteq Excused
                              /\ rr.f <= Cardinality(Excused)
 (* bounded-time progress (DESIGN 8): the replication reached a caught-up point *)
